@@ -109,17 +109,21 @@ def rxso3_Ws(x):
     B[condition2] = (theta_c2 - theta_c2.sin()) / (theta2[condition2] * theta_c2)
 
     # condition3
-    C[sigma_larger] = torch.expm1(sigma[sigma_larger]) / sigma[sigma_larger]
+    expm1 = torch.expm1(sigma) # scale - 1 without cancellation
+    C[sigma_larger] = expm1[sigma_larger] / sigma[sigma_larger]
     sigma_c3, scale_c3, sigma2_c3 = sigma[condition3], scale[condition3], sigma2[condition3]
-    A[condition3] = (1.0 + (sigma_c3 - 1.0) * scale_c3) / sigma2_c3
-    B[condition3] = (0.5 * sigma2_c3 * scale_c3 + scale_c3 - 1.0 - sigma_c3 * scale_c3) / (sigma2_c3 * sigma_c3)
+    expm1_c3 = expm1[condition3]
+    A[condition3] = (sigma_c3 * scale_c3 - expm1_c3) / sigma2_c3
+    B[condition3] = (0.5 * sigma2_c3 * scale_c3 + expm1_c3 - sigma_c3 * scale_c3) / (sigma2_c3 * sigma_c3)
 
     # condition4
     sigma_c4, sigma2_c4, scale_c4 = sigma[condition4], sigma2[condition4], scale[condition4]
     theta_c4, theta2_c4, theta2_inv_c4 = theta[condition4], theta2[condition4], theta2_inv[condition4]
-    a_c4, b_c4, c_c4 = scale_c4 * theta_c4.sin(), scale_c4 * theta_c4.cos(), (theta2_c4 + sigma2_c4)
-    A[condition4] = (a_c4 * sigma_c4 + (1 - b_c4) * theta_c4) / (theta_c4 * c_c4)
-    B[condition4] = (C[condition4] - ((b_c4 - 1) * sigma_c4 + a_c4 * theta_c4) / c_c4) * theta2_inv_c4
+    a_c4, c_c4 = scale_c4 * theta_c4.sin(), (theta2_c4 + sigma2_c4)
+    # scale * cos(theta) - 1 without cancellation
+    bm1_c4 = expm1[condition4] * theta_c4.cos() - 2.0 * (0.5 * theta_c4).sin() ** 2
+    A[condition4] = (a_c4 * sigma_c4 - bm1_c4 * theta_c4) / (theta_c4 * c_c4)
+    B[condition4] = (C[condition4] - (bm1_c4 * sigma_c4 + a_c4 * theta_c4) / c_c4) * theta2_inv_c4
 
     K = vec2skew(rotation)
     A = A.unsqueeze(-1).unsqueeze(-1)
